@@ -190,6 +190,22 @@ def owner_fn(I, ev):
     return stk[-1][0]
 
 
+def on_every_return_path(I, ev):
+    """the event happens on every path that returns normally: in each frame of its inline stack, the block holding the event
+    (or the call that leads to it) lies on every path from that frame's entry to its returns"""
+    stk = ev.stack
+    for k in range(len(stk)):
+        fn = stk[k][0]
+        body = I.db.bodies.get(fn) or I.db.by_path.get(fn)
+        if body is None:
+            return False
+        blk = stk[k + 1][1] if k + 1 < len(stk) else ev.block
+        g = I.db.cfg(body)
+        if not g.every_path_passes(0, {blk}, g.returns()):
+            return False
+    return True
+
+
 def short(fn):
     return fn.replace('Bump::<MIN_ALIGN>::', 'Bump::')
 
